@@ -853,7 +853,7 @@ func (in *Interp) visit(fr *frame, instr ssa.Instruction) continuation {
 			}
 		}
 		if chosen < 0 && instr.Blocking {
-			panic(pathEnd{"unsupported", "select would block (sequential execution)"})
+			panic(pathEnd{"blocked", "select would block (sequential execution: no other goroutine can make a case ready)"})
 		}
 		r := Tuple{sym.BV(uint64(int64(chosen)), 64), sym.Bool(recvOk)}
 		for i, st := range instr.States {
@@ -885,13 +885,13 @@ func (in *Interp) branch(fr *frame, instr *ssa.If) bool {
 
 func (in *Interp) chanSend(ch *Chan, v Value) {
 	if ch == nil {
-		panic(pathEnd{"unsupported", "send on nil channel blocks forever"})
+		panic(pathEnd{"blocked", "send on nil channel blocks forever"})
 	}
 	if ch.closed {
 		in.targetPanicMsg("send on closed channel")
 	}
 	if len(ch.buf) >= ch.cap {
-		panic(pathEnd{"unsupported", "channel send would block (sequential execution)"})
+		panic(pathEnd{"blocked", "channel send would block (sequential execution)"})
 	}
 	old := ch.buf
 	in.logUndo(func() { ch.buf = old })
@@ -900,13 +900,13 @@ func (in *Interp) chanSend(ch *Chan, v Value) {
 
 func (in *Interp) chanRecv(ch *Chan, et types.Type) (Value, bool) {
 	if ch == nil {
-		panic(pathEnd{"unsupported", "receive on nil channel blocks forever"})
+		panic(pathEnd{"blocked", "receive on nil channel blocks forever"})
 	}
 	if len(ch.buf) == 0 {
 		if ch.closed {
 			return Zero(et), false
 		}
-		panic(pathEnd{"unsupported", "channel receive would block (sequential execution)"})
+		panic(pathEnd{"blocked", "channel receive would block (sequential execution)"})
 	}
 	old := ch.buf
 	in.logUndo(func() { ch.buf = old })
